@@ -44,6 +44,7 @@ ASSUMPTIONS = [
     "wall-clock watchdog only makes a run inconclusive",
 ]
 FLOORS = {"quick": {"nesting_depths_swept": 4000, "socket_level_misbehaviours": 20,
+                    "backtracking_baits": 100,
                     "evaluations": 10000, "raw_lines": 1500, "json_hostile": 300,
                     "structure_aware": 8000, "live_lines": 100, "answered": 12000,
                     "hostile_leaves": 150},
@@ -635,10 +636,101 @@ def entry_point_process(acc, spec, rng):
                                "legacy_mode": v1}, {"kind": "entry", "behaviour": name})
                 return
             acc.count("answered")
+        # ---- requests whose string fields invite catastrophic backtracking or any other
+        # super-linear scan: a long run of characters that are valid where they stand,
+        # followed by one that is not.  Every field the documents name is tried.  The
+        # manager answers such a line in milliseconds; one left unanswered for
+        # BAIT_WAIT_S (wall clock, four orders of magnitude above that) while the process
+        # is alive is a request that never gets its reply - and, the server being
+        # single-threaded, neither does anybody else's.
+        for name, req in backtracking_baits(rng, ver):
+            acc.evaluations += 1
+            acc.count("backtracking_baits")
+            line = json.dumps(req).encode() + b"\n"
+            t1 = time.time()
+            reply = _client(port, line, timeout=BAIT_WAIT_S)
+            took = time.time() - t1
+            acc.counters["max_bait_answer_ms"] = max(acc.counters.get("max_bait_answer_ms", 0),
+                                                     int(took * 1000))
+            if reply is None and took >= BAIT_WAIT_S - 1 and child.poll() is None:
+                acc.violation("entry-point:request-never-answered:%s" % name,
+                              {"waited_s": round(took, 1), "legacy_mode": v1,
+                               "request": repr(req)[:300]},
+                              {"kind": "bait", "name": name, "request": req, "v1": v1})
+                return
+            if reply is None or judge(reply, None) is not None or child.poll() is not None:
+                acc.violation("entry-point:bad-answer-to:%s" % name,
+                              {"exit_status": child.poll(), "reply": repr(reply)[:120],
+                               "legacy_mode": v1},
+                              {"kind": "bait", "name": name, "request": req, "v1": v1})
+                return
+            acc.count("answered")
     finally:
         if child.poll() is None:
             child.kill()
         child.wait(10)
+
+
+BAIT_WAIT_S = 60
+
+
+def backtracking_baits(rng, ver):
+    """(name, request) pairs"""
+    path = "m/44'/0'/0'/0/0"
+    runs = []
+    for n in (40, 64, 400):
+        runs += [("digits-then-letter-%d" % n, "m/44'/0'/0'/0/" + "9" * n + "h"),
+                 ("digits-then-blank-%d" % n, "m/44'/0'/0'/0/" + "1" * n + " "),
+                 ("hardened-run-%d" % n, "m/" + "1'" * n + "x"),
+                 ("elements-run-%d" % n, "m/" + "1/" * n + "x"),
+                 ("slashes-run-%d" % n, path + "/" * n + "x"),
+                 ("quotes-run-%d" % n, "m/44" + "'" * n + "/0"),
+                 ("m-run-%d" % n, "m/" * n + "0"),
+                 ("zeros-then-quote-quote-%d" % n, "m/" + "0" * n + "''")]
+    out = []
+    for nm, kid in runs:
+        out.append(("keyId:" + nm, {"command": "getPubKey", "version": ver, "keyId": kid}))
+    for nm, kid in rng.sample(runs, 6):
+        out.append(("sign.keyId:" + nm, {"command": "sign", "version": ver, "keyId": kid,
+                                         "message": {"hash": "aa" * 32}}))
+    hexruns = []
+    for n in (64, 400, 5000):
+        hexruns += [("hex-then-g-%d" % n, "ab" * n + "g"),
+                    ("hex-then-blank-%d" % n, "ab" * n + " "),
+                    ("0x-run-%d" % n, "0x" * n + "zz"),
+                    ("odd-hex-%d" % n, "a" * (2 * n + 1)),
+                    ("hex-then-newline-%d" % n, "ab" * n + "\n"),
+                    ("blank-run-%d" % n, " " * n + "ab")]
+    for nm, hx in hexruns:
+        out.append(("hash:" + nm, {"command": "sign", "version": ver, "keyId": path,
+                                   "message": {"hash": hx}}))
+        out.append(("tx:" + nm, {"command": "sign", "version": ver, "keyId": path,
+                                 "auth": {"receipt": "aa", "receipt_merkle_proof": ["aa"]},
+                                 "message": {"tx": hx, "input": 0,
+                                             "sighashComputationMode": "legacy"}}))
+    for nm, hx in rng.sample(hexruns, 8):
+        out.append(("receipt:" + nm, {"command": "sign", "version": ver, "keyId": path,
+                                      "auth": {"receipt": hx, "receipt_merkle_proof": [hx]},
+                                      "message": {"tx": "aa", "input": 0,
+                                                  "sighashComputationMode": "legacy"}}))
+        out.append(("witnessScript:" + nm,
+                    {"command": "sign", "version": ver, "keyId": path,
+                     "auth": {"receipt": "aa", "receipt_merkle_proof": ["aa"]},
+                     "message": {"tx": "aa", "input": 0, "sighashComputationMode": "segwit",
+                                 "witnessScript": hx, "outpointValue": 1}}))
+        out.append(("blocks:" + nm, {"command": "advanceBlockchain", "version": ver,
+                                     "blocks": [hx], "brothers": [[hx]]}))
+        out.append(("ancestor:" + nm, {"command": "updateAncestorBlock", "version": ver,
+                                       "blocks": [hx]}))
+        out.append(("udValue:" + nm, {"command": "signerHeartbeat", "version": ver,
+                                      "udValue": hx}))
+        out.append(("mode:" + nm, {"command": "sign", "version": ver, "keyId": path,
+                                   "auth": {"receipt": "aa", "receipt_merkle_proof": ["aa"]},
+                                   "message": {"tx": "aa", "input": 0,
+                                               "sighashComputationMode": hx}}))
+        out.append(("command:" + nm, {"command": hx, "version": ver}))
+    rng.shuffle(out)
+    return out
 
 
 def manager_child(argv):
@@ -680,9 +772,9 @@ def _quiet(fn):
         pass
 
 
-def _client(port, line):
+def _client(port, line, timeout=10):
     try:
-        cs = socket.create_connection(("127.0.0.1", port), timeout=10)
+        cs = socket.create_connection(("127.0.0.1", port), timeout=timeout)
         cs.sendall(line)
         data = b""
         while True:
@@ -704,6 +796,31 @@ def replay(case, acc):
         line = json.dumps(case["request"]).encode() + b"\n"
     elif case.get("line"):
         line = bytes.fromhex(case["line"])
+    elif case["kind"] == "bait":
+        import time
+        import subprocess
+        sock = socket.socket()
+        sock.bind(("127.0.0.1", 0))
+        port = sock.getsockname()[1]
+        sock.close()
+        child = subprocess.Popen([sys.executable, "-m", "pv.props.c03", "--manager-child",
+                                  str(port), "1" if case.get("v1") else "0"], cwd=env.VERIF,
+                                 stdout=subprocess.DEVNULL, stderr=subprocess.DEVNULL)
+        try:
+            t0 = time.time()
+            while time.time() - t0 < 20 and not _client(port, b'{"command":"version"}\n'):
+                time.sleep(0.05)
+            t1 = time.time()
+            reply = _client(port, json.dumps(case["request"]).encode() + b"\n",
+                            timeout=BAIT_WAIT_S)
+            if reply is None or judge(reply, None) is not None:
+                acc.violation("entry-point:request-never-answered:%s" % case["name"],
+                              {"waited_s": round(time.time() - t1, 1),
+                               "reply": repr(reply)[:100]}, case)
+        finally:
+            child.kill()
+            child.wait(10)
+        return
     elif case["kind"] == "depth":
         # (the stack depth of the replay differs from the run's: neighbours too)
         d = case["depth"]
